@@ -155,6 +155,10 @@ package saml
 //@ assert@call[C01] append #1 (dst []string, src []string) uses keyDescriptor KeyDescriptor signing_use_only:
 //@    keyDescriptor.Use == "" || keyDescriptor.Use == "signing"
 //@ ensures[C01,C09] nonempty: err == nil ==> len(result) > 0
+//@ -- every trust root handed to the signature library is a parsed certificate (a nil root is dereferenced there)
+//@ loop 4 vars certs []*x509.Certificate
+//@ invariant[C01,C09] parsed_so_far: iter <= len(certs) && forall(0, iter, func(k int) bool { return certs[k] != nil })
+//@ ensures[C01,C09] all_parsed: err == nil ==> forall(0, len(result), func(k int) bool { return result[k] != nil })
 //@ records ret: ReturnedSigningCerts(sp, result, err)
 
 //@ contract (*ServiceProvider).getCertBasedOnFingerprint
